@@ -406,7 +406,7 @@ func (c *Ctx) tagReviewed(fn *ssa.Function, ci ssa.CallInstruction, accessor str
 				okAll := res.broken == ""
 				found := 0
 				for _, ob := range res.obls {
-					if strings.Contains(ob.Construct, "#call#") {
+					if strings.Contains(ob.Construct, "#call#") && !strings.Contains(ob.Construct, "#call#rebuild-in-order") {
 						found++
 						if ob.Status != Discharged {
 							okAll = false
@@ -489,7 +489,7 @@ func ruleTagExprToken(c *Ctx) []*Obligation {
 		for _, p := range pairs {
 			// can the type be Variable or Function?
 			mayBeName := false
-			for _, tl := range phiLeaves(p.t) {
+			for _, tl := range c.resultLeaves(p.t, 2) {
 				if k, isK := constInt(tl); isK {
 					if k == vk || k == fk {
 						mayBeName = true
@@ -612,6 +612,11 @@ func rulePanicAssert(c *Ctx) []*Obligation {
 				if !ok || ta.CommaOk {
 					continue
 				}
+				if types.Identical(ta.AssertedType, ta.X.Type()) {
+					// the non-nil check go/ssa emits for a method value x.M of an interface x: it fails
+					// exactly when calling x.M() would (nil interface), which is not an assertion on data
+					continue
+				}
 				n++
 				key := fmt.Sprintf("%s#assert<%s>#%d", c.FuncKey(fn), shortType(ta.AssertedType), n)
 				if _, isAcc := accessorTag[fn.Name()]; isAcc && fn.Signature.Recv() != nil {
@@ -646,4 +651,23 @@ func rulePanicAssert(c *Ctx) []*Obligation {
 		}
 	}
 	return o.list
+}
+
+// resultLeaves expands v through phis and through the returned values of statically called
+// single-result module functions (a lookup helper such as findOperatorType), up to the given depth.
+func (c *Ctx) resultLeaves(v ssa.Value, depth int) []ssa.Value {
+	var out []ssa.Value
+	for _, l := range phiLeaves(v) {
+		call, ok := stripConv(l).(*ssa.Call)
+		if ok && depth > 0 {
+			if g := call.Call.StaticCallee(); g != nil && c.InModule(g) && g.Blocks != nil && g.Signature.Results().Len() == 1 && g.Signature.Recv() == nil {
+				for _, ret := range returnsOf(g) {
+					out = append(out, c.resultLeaves(ret.Results[0], depth-1)...)
+				}
+				continue
+			}
+		}
+		out = append(out, l)
+	}
+	return out
 }
